@@ -89,16 +89,245 @@ pub fn emit_cfg(c: &Cfg) -> Emit {
     e
 }
 
-pub fn rand_cfg(r: &mut Rng) -> Cfg {
+/// Weights and choices of the random program generator; one profile per property (see `profile`).
+#[derive(Clone)]
+pub struct Profile {
+    pub rx: Vec<u64>,
+    pub tx: Vec<u64>,
+    pub ka: Vec<u64>,
+    pub downgrade: (u64, u64),
+    pub will_auth: (u64, u64),
+    pub conns: (u64, u64),
+    pub ops: (u64, u64),
+    pub auto: (u64, u64),
+    pub resume: (u64, u64),
+    pub bad_connack: (u64, u64),
+    pub limits: bool,          // CONNACK carries Receive Maximum / Maximum Packet Size / Maximum QoS / Server Keep Alive
+    pub w_pub: [u64; 3],
+    pub w_sub: u64,
+    pub w_unsub: u64,
+    pub w_drive: u64,
+    pub w_poll: u64,
+    pub w_recv: u64,
+    pub w_ack: u64,
+    pub w_inbound: u64,
+    pub w_advance: u64,
+    pub w_garbage: u64,
+    pub w_disconnect: u64,
+    pub w_drop: u64,
+    pub invalid_props: (u64, u64),
+    pub payloads: Vec<usize>,
+    pub script_len: (u64, u64),
+    pub fault: (u64, u64),     // probability that a script is faulty at all
+    pub fault_kinds: Vec<u64>, // 1 fail, 2 zero/eof, 3 drop
+    pub chunks: Vec<u64>,
+    pub ack_rc: (u64, u64),    // probability of a failure reason code in an ack
+}
+
+pub fn base_profile() -> Profile {
+    Profile {
+        rx: vec![16, 32, 64, 64, 128, 128],
+        tx: vec![48, 64, 96, 128, 128, 256, 1152],
+        ka: vec![0],
+        downgrade: (1, 4),
+        will_auth: (1, 8),
+        conns: (1, 3),
+        ops: (2, 12),
+        auto: (1, 3),
+        resume: (3, 4),
+        bad_connack: (1, 15),
+        limits: true,
+        w_pub: [3, 3, 3],
+        w_sub: 2,
+        w_unsub: 1,
+        w_drive: 1,
+        w_poll: 3,
+        w_recv: 1,
+        w_ack: 6,
+        w_inbound: 3,
+        w_advance: 0,
+        w_garbage: 1,
+        w_disconnect: 1,
+        w_drop: 1,
+        invalid_props: (1, 15),
+        payloads: vec![0, 1, 2, 3, 5, 8, 13, 20, 40],
+        script_len: (0, 60),
+        fault: (1, 3),
+        fault_kinds: vec![1, 2, 3, 3],
+        chunks: vec![1, 1, 2, 3, 5, 8, 1000, 1000, 1000],
+        ack_rc: (1, 6),
+    }
+}
+
+pub fn profile(name: &str) -> Profile {
+    let mut p = base_profile();
+    match name {
+        "c01" => {
+            p.chunks = vec![1, 1, 1, 2, 3, 1000];
+            p.fault = (1, 2);
+            p.w_inbound = 4;
+            p.conns = (1, 4);
+        }
+        "c02" => {
+            p.w_pub = [1, 8, 1];
+            p.w_sub = 0;
+            p.w_unsub = 0;
+            p.w_inbound = 0;
+            p.w_garbage = 0;
+            p.conns = (2, 5);
+            p.resume = (9, 10);
+            p.bad_connack = (1, 40);
+            p.tx = vec![128, 256, 1152];
+            p.w_drop = 3;
+            p.invalid_props = (0, 1);
+        }
+        "c03" => {
+            p.w_pub = [0, 1, 8];
+            p.w_sub = 0;
+            p.w_unsub = 0;
+            p.w_inbound = 0;
+            p.w_garbage = 0;
+            p.w_ack = 10;
+            p.conns = (2, 5);
+            p.resume = (9, 10);
+            p.bad_connack = (1, 40);
+            p.tx = vec![128, 256, 1152];
+            p.w_drop = 2;
+            p.invalid_props = (0, 1);
+        }
+        "c04" => {
+            p.w_pub = [1, 1, 1];
+            p.w_inbound = 12;
+            p.w_ack = 1;
+            p.w_sub = 0;
+            p.w_unsub = 0;
+            p.conns = (1, 3);
+            p.resume = (3, 4);
+            p.tx = vec![16, 24, 64, 128];
+            p.auto = (0, 1);
+        }
+        "c05" => {
+            p.conns = (2, 6);
+            p.ops = (0, 6);
+            p.resume = (1, 2);
+            p.bad_connack = (1, 4);
+            p.will_auth = (1, 3);
+        }
+        "c06" => {
+            p.w_pub = [1, 6, 6];
+            p.w_sub = 1;
+            p.w_unsub = 0;
+            p.w_inbound = 0;
+            p.w_garbage = 0;
+            p.w_ack = 8;
+            p.conns = (1, 4);
+            p.resume = (9, 10);
+            p.tx = vec![256, 1152];
+            p.auto = (1, 6);
+            p.payloads = vec![0, 1, 2];
+            p.invalid_props = (0, 1);
+        }
+        "c07" => {
+            p.w_pub = [0, 4, 4];
+            p.w_sub = 3;
+            p.w_unsub = 3;
+            p.w_inbound = 0;
+            p.w_garbage = 0;
+            p.tx = vec![256, 1152];
+            p.payloads = vec![0, 1];
+            p.fault = (1, 6);
+        }
+        "c08" => {
+            p.w_garbage = 8;
+            p.w_inbound = 6;
+            p.bad_connack = (1, 3);
+            p.rx = vec![4, 8, 16, 32, 64];
+        }
+        "c10" => {
+            p.ka = vec![0, 1, 2, 4, 5, 9, 10, 60, 65535];
+            p.w_advance = 8;
+            p.w_poll = 8;
+            p.w_recv = 2;
+            p.w_pub = [2, 1, 0];
+            p.w_sub = 0;
+            p.w_unsub = 0;
+            p.w_garbage = 0;
+            p.w_inbound = 1;
+            p.fault = (1, 8);
+            p.invalid_props = (0, 1);
+        }
+        "c11" => {
+            p.fault = (1, 1);
+            p.fault_kinds = vec![1, 1, 2];
+            p.w_garbage = 3;
+            p.w_disconnect = 3;
+            p.ka = vec![0, 0, 1, 5];
+            p.w_advance = 1;
+        }
+        "c12" => {
+            p.fault = (2, 3);
+            p.conns = (2, 5);
+            p.bad_connack = (1, 3);
+            p.tx = vec![24, 32, 48, 64, 96, 128];
+        }
+        "c14" => {
+            p.limits = true;
+            p.payloads = vec![0, 1, 2, 3, 4, 5, 6, 7, 8, 9, 10, 12, 14, 16, 20, 30];
+            p.rx = vec![4, 6, 8, 12, 16, 32, 64];
+            p.w_inbound = 5;
+            p.resume = (9, 10);
+            p.conns = (1, 4);
+        }
+        "c16" => {
+            p.auto = (1, 1);
+            p.fault = (1, 2);
+            p.conns = (1, 3);
+            p.w_garbage = 0;
+            p.bad_connack = (1, 40);
+            p.invalid_props = (0, 1);
+        }
+        "c17" => {
+            p.tx = vec![16, 24, 32, 48, 64, 96, 128, 256, 1152];
+            p.ops = (10, 40);
+            p.payloads = vec![0, 1, 2, 3, 5, 8, 13, 20, 40, 100, 300];
+            p.w_pub = [3, 6, 4];
+            p.w_ack = 10;
+            p.w_inbound = 0;
+            p.w_garbage = 0;
+            p.fault = (1, 6);
+            p.invalid_props = (0, 1);
+        }
+        "c18" => {
+            p.w_ack = 10;
+            p.ack_rc = (1, 3);
+            p.conns = (1, 4);
+            p.resume = (1, 2);
+            p.w_inbound = 0;
+            p.w_garbage = 0;
+        }
+        "c19" => {
+            p.invalid_props = (1, 2);
+            p.fault = (0, 1);
+            p.w_inbound = 0;
+            p.w_garbage = 0;
+            p.downgrade = (1, 2);
+            p.w_disconnect = 3;
+        }
+        _ => {}
+    }
+    p
+}
+
+pub fn rand_cfg(r: &mut Rng, p: &Profile) -> Cfg {
     Cfg {
-        rx: *r.pick(&[8u64, 16, 32, 64, 64, 128, 128]),
-        tx: *r.pick(&[16u64, 24, 32, 48, 64, 96, 128, 128, 256, 1152]),
+        rx: *r.pick(&p.rx),
+        tx: *r.pick(&p.tx),
         cid: r.pick(&[&b""[..], b"t", b"client-1"]).to_vec(),
-        ka: *r.pick(&[0u64, 0, 1, 2, 4, 5, 9, 10, 60, 60, 65535]),
+        ka: *r.pick(&p.ka),
         expiry: *r.pick(&[0u64, 3600]),
-        downgrade: r.chance(1, 3),
-        will: r.chance(1, 6),
-        auth: r.chance(1, 6),
+        downgrade: r.chance(p.downgrade.0, p.downgrade.1),
+        will: r.chance(p.will_auth.0, p.will_auth.1),
+        auth: r.chance(p.will_auth.0, p.will_auth.1),
     }
 }
 
@@ -174,30 +403,30 @@ pub const RECV: u64 = 7;
 pub const DROP: u64 = 10;
 pub const HD: u64 = 11;
 
-pub fn rand_connack(r: &mut Rng, sp: bool) -> Vec<u8> {
+pub fn rand_connack(r: &mut Rng, sp: bool, limits: bool, bad: (u64, u64)) -> Vec<u8> {
     let mut props = Vec::new();
-    if r.chance(1, 2) {
+    if limits && r.chance(1, 2) {
         props.push(numprop(17, *r.pick(&[1u64, 1, 2, 3, 7, 8, 9, 65535])));
     }
-    if r.chance(1, 4) {
+    if limits && r.chance(1, 4) {
         props.push(numprop(23, *r.pick(&[2u64, 4, 5, 8, 12, 16, 20, 30, 64, 1000])));
     }
-    if r.chance(1, 4) {
+    if limits && r.chance(1, 4) {
         props.push(numprop(20, r.below(3)));
     }
-    if r.chance(1, 5) {
+    if limits && r.chance(1, 5) {
         props.push(numprop(8, *r.pick(&[0u64, 1, 2, 7, 10, 30])));
     }
     if r.chance(1, 8) {
         props.push(strprop(7, b"assigned-id"));
     }
-    if r.chance(1, 30) {
+    if r.chance(bad.0, bad.1 * 3) {
         props.push(numprop(17, 0));
     }
-    if r.chance(1, 30) {
+    if r.chance(bad.0, bad.1 * 3) {
         props.push(numprop(20, 3));
     }
-    let rc = if r.chance(1, 12) { *r.pick(&[0x80u8, 0x87, 0x89]) } else { 0 };
+    let rc = if r.chance(bad.0, bad.1) { *r.pick(&[0x80u8, 0x87, 0x89]) } else { 0 };
     connack(sp && rc == 0, rc, &props)
 }
 
@@ -219,98 +448,127 @@ fn pub_props(r: &mut Rng) -> Vec<OProp> {
         .collect()
 }
 
-fn payload(r: &mut Rng) -> Vec<u8> {
-    let n = *r.pick(&[0usize, 1, 2, 3, 5, 8, 13, 20, 40, 100]);
+fn payload(r: &mut Rng, p: &Profile) -> Vec<u8> {
+    let n = *r.pick(&p.payloads);
     r.bytes(n)
 }
 
-/// One random program: a few connections, mixed operations, manual or automatic broker.
-pub fn rand_case(r: &mut Rng) -> Case {
-    let cfg = rand_cfg(r);
+fn bump(pid: u16) -> u16 {
+    if pid == 65535 { 1 } else { pid + 1 }
+}
+
+/// One random program under a profile: a few connections, mixed operations, manual or automatic broker.
+pub fn gen_case(r: &mut Rng, p: &Profile) -> Case {
+    let cfg = rand_cfg(r, p);
     let mut actions = Vec::new();
     let mut next_pid: u16 = 1; // the generator's guess of the client's next identifier
     let mut inflight: Vec<(u16, u8)> = Vec::new(); // (pid, kind 1=q1 2=q2 3=sub 4=unsub 5=rel)
     let mut srv_pending: Vec<u16> = Vec::new();
-    let auto = r.chance(1, 3);
-    let conns = r.range(1, 4);
+    let auto = r.chance(p.auto.0, p.auto.1);
+    let conns = r.range(p.conns.0, p.conns.1);
     let mut connected_once = false;
+    let weights: Vec<(u64, u8)> = vec![
+        (p.w_pub[0], 0), (p.w_pub[1], 1), (p.w_pub[2], 2), (p.w_sub, 3), (p.w_unsub, 4), (p.w_drive, 5),
+        (p.w_poll, 6), (p.w_recv, 7), (if auto { 0 } else { p.w_ack }, 8), (p.w_inbound, 9), (p.w_advance, 10),
+        (p.w_garbage, 11), (p.w_disconnect, 12), (p.w_drop, 13),
+    ];
+    let total: u64 = weights.iter().map(|w| w.0).sum();
     for _ in 0..conns {
         if auto {
             actions.push(a_num(12, 1));
         }
-        // connect
-        let sp = connected_once && r.chance(3, 4);
+        let sp = connected_once && r.chance(p.resume.0, p.resume.1);
         let mut chunks = Vec::new();
-        match r.below(20) {
-            0 => {} // no CONNACK: connect is dropped while waiting
-            1 => chunks.push((0, vec![0x20, 0x02, 0x00])),
-            2 => chunks.push((0, packet(0xE0, &[0x89]))),
-            3 => chunks.push((0, vec![0x90, 0x03, 0, 1, 0])),
-            _ => {
-                let c = rand_connack(r, sp);
-                if r.chance(1, 5) {
-                    let k = r.below(c.len() as u64) as usize;
-                    chunks.push((0, c[..k].to_vec()));
-                    chunks.push((r.below(3), c[k..].to_vec()));
-                } else {
-                    chunks.push((0, c));
-                }
-                if !sp {
-                    next_pid = 1;
-                    inflight.clear();
-                    srv_pending.clear();
-                }
-                connected_once = true;
+        if r.chance(p.bad_connack.0, p.bad_connack.1 * 2) {
+            match r.below(4) {
+                0 => {}
+                1 => chunks.push((0, vec![0x20, 0x02, 0x00])),
+                2 => chunks.push((0, packet(0xE0, &[0x89]))),
+                _ => chunks.push((0, vec![0x90, 0x03, 0, 1, 0])),
             }
+        } else {
+            let c = rand_connack(r, sp, p.limits, p.bad_connack);
+            if r.chance(1, 5) {
+                let k = r.below(c.len() as u64) as usize;
+                chunks.push((0, c[..k].to_vec()));
+                chunks.push((r.below(3), c[k..].to_vec()));
+            } else {
+                chunks.push((0, c));
+            }
+            if !sp {
+                next_pid = 1;
+                inflight.clear();
+                srv_pending.clear();
+            }
+            connected_once = true;
         }
         actions.push(a_connect(&chunks));
-        let nops = r.range(0, 12);
+        let nops = r.range(p.ops.0, p.ops.1);
         for _ in 0..nops {
-            match r.below(22) {
-                0..=5 => {
-                    let qos = r.below(3);
+            let mut x = r.below(total.max(1));
+            let mut sel = 6u8;
+            for (w, k) in &weights {
+                if x < *w {
+                    sel = *k;
+                    break;
+                }
+                x -= *w;
+            }
+            match sel {
+                0..=2 => {
+                    let qos = sel as u64;
                     let topic = rand_str(r);
                     let corr = if r.chance(1, 6) { Some(rand_bin(r)) } else { None };
                     let mut props = pub_props(r);
-                    if r.chance(1, 15) {
-                        props.push(numprop(17, 3)); // not allowed on PUBLISH
+                    if r.chance(p.invalid_props.0, p.invalid_props.1) {
+                        match r.below(4) {
+                            0 => props.push(numprop(17, 3)),
+                            1 => props.push(numprop(0, 2)),
+                            2 => props.push(numprop(19, 0)),
+                            _ => props.push(numprop(5, 1)),
+                        }
                     }
-                    let pl = payload(r);
+                    let pl = payload(r, p);
                     actions.push(a_publish(&topic, corr.as_deref(), &props, qos, &pl, r.chance(1, 4)));
                     if qos > 0 {
                         inflight.push((next_pid, qos as u8));
-                        next_pid = if next_pid == 65535 { 1 } else { next_pid + 1 };
+                        next_pid = bump(next_pid);
                     }
                 }
-                6 => {
-                    let n = r.range(0, 2);
+                3 => {
+                    let n = if r.chance(1, 8) { 0 } else { r.range(1, 2) };
                     let names: Vec<Vec<u8>> = (0..n).map(|_| rand_str(r)).collect();
                     let topics: Vec<(&[u8], u64, bool, bool, u64)> =
                         names.iter().map(|t| (&t[..], r.below(3), r.chance(1, 2), r.chance(1, 2), r.below(3))).collect();
-                    let props = if r.chance(1, 4) { vec![numprop(5, *r.pick(&[0u64, 1, 127, 128, 268_435_455]))] } else { vec![] };
+                    let mut props = if r.chance(1, 4) { vec![numprop(5, *r.pick(&[1u64, 127, 128, 268_435_455]))] } else { vec![] };
+                    if r.chance(p.invalid_props.0, p.invalid_props.1) {
+                        props.push(if r.chance(1, 2) { numprop(5, 0) } else { strprop(2, b"x") });
+                    }
                     actions.push(a_subscribe(&props, &topics));
                     if n > 0 {
                         inflight.push((next_pid, 3));
-                        next_pid = if next_pid == 65535 { 1 } else { next_pid + 1 };
+                        next_pid = bump(next_pid);
                     }
                 }
-                7 => {
-                    let n = r.range(0, 2);
+                4 => {
+                    let n = if r.chance(1, 8) { 0 } else { r.range(1, 2) };
                     let names: Vec<Vec<u8>> = (0..n).map(|_| rand_str(r)).collect();
                     let topics: Vec<&[u8]> = names.iter().map(|t| &t[..]).collect();
-                    actions.push(a_unsubscribe(&[], &topics));
+                    let props = if r.chance(p.invalid_props.0, p.invalid_props.1) { vec![numprop(1, 5)] } else { vec![] };
+                    actions.push(a_unsubscribe(&props, &topics));
                     if n > 0 {
                         inflight.push((next_pid, 4));
-                        next_pid = if next_pid == 65535 { 1 } else { next_pid + 1 };
+                        next_pid = bump(next_pid);
                     }
                 }
-                8..=10 => actions.push(a_simple(*r.pick(&[DRIVE, POLL, POLL, RECV]))),
-                11..=14 if !auto => {
-                    // broker acknowledges something (mostly something in flight)
+                5 => actions.push(a_simple(DRIVE)),
+                6 => actions.push(a_simple(POLL)),
+                7 => actions.push(a_simple(RECV)),
+                8 => {
                     let bytes = if !inflight.is_empty() && r.chance(5, 6) {
                         let i = r.below(inflight.len() as u64) as usize;
                         let (pid, kind) = inflight[i];
-                        let rc = if r.chance(1, 6) { Some(*r.pick(&[0x80u8, 0x10, 0x97, 0x92])) } else if r.chance(1, 2) { Some(0) } else { None };
+                        let rc = if r.chance(p.ack_rc.0, p.ack_rc.1) { Some(*r.pick(&[0x80u8, 0x10, 0x97, 0x92])) } else if r.chance(1, 2) { Some(0) } else { None };
                         match kind {
                             1 => {
                                 inflight.remove(i);
@@ -338,7 +596,6 @@ pub fn rand_case(r: &mut Rng) -> Case {
                             }
                         }
                     } else {
-                        // stale / unexpected ack
                         let pid = *r.pick(&[1u16, 2, 3, 9, 65535]);
                         match r.below(5) {
                             0 => ack(4, pid, None),
@@ -353,64 +610,83 @@ pub fn rand_case(r: &mut Rng) -> Case {
                         actions.push(a_simple(POLL));
                     }
                 }
-                15..=17 => {
-                    // inbound publish from the broker
+                9 => {
                     let qos = r.below(3) as u8;
                     let pid = if !srv_pending.is_empty() && r.chance(1, 3) { *r.pick(&srv_pending) } else { *r.pick(&[1u16, 2, 3, 4, 5, 6, 7, 8, 9, 10, 300]) };
                     let props = if r.chance(1, 3) { vec![strprop(3, b"re/ply"), strprop(4, b"cd")] } else { vec![] };
-                    let bytes = publish(qos, pid, &rand_str(r), &payload(r), &props, r.chance(1, 4), r.chance(1, 4));
+                    let bytes = publish(qos, pid, &rand_str(r), &payload(r, p), &props, r.chance(1, 4), r.chance(1, 4));
                     if qos == 2 && !srv_pending.contains(&pid) {
                         srv_pending.push(pid);
                     }
                     actions.push(a_feed(0, &bytes));
                     actions.push(a_simple(*r.pick(&[POLL, RECV, DRIVE])));
+                    if r.chance(1, 2) {
+                        actions.push(a_simple(POLL));
+                    }
                     if qos == 2 && r.chance(1, 2) {
                         srv_pending.retain(|p| *p != pid);
                         actions.push(a_feed(0, &ack(6, pid, None)));
                         actions.push(a_simple(POLL));
                     }
                 }
-                18 => actions.push(a_num(9, *r.pick(&[1u64, 10, 400, 500, 999, 1000, 2500, 5000, 5001, 30000, 60000]))),
-                19 => {
-                    let garbage = match r.below(4) {
+                10 => actions.push(a_num(9, *r.pick(&[1u64, 10, 400, 499, 500, 501, 999, 1000, 1001, 2500, 4999, 5000, 5001, 30000, 60000]))),
+                11 => {
+                    let garbage = match r.below(5) {
                         0 => vec![0x00, 0x00],
                         1 => vec![0x10, 0x00],
                         2 => packet(0xE0, &[]),
-                        _ => { let n = r.range(1, 6) as usize; r.bytes(n) }
+                        3 => vec![0x30, 0xFF, 0xFF, 0xFF, 0x7F],
+                        _ => {
+                            let n = r.range(1, 6) as usize;
+                            r.bytes(n)
+                        }
                     };
                     actions.push(a_feed(0, &garbage));
                     actions.push(a_simple(POLL));
                 }
-                20 => {
-                    match r.below(4) {
-                        0 => actions.push(a_disconnect(None, None)),
-                        1 => actions.push(a_disconnect(Some(4), None)),
-                        2 => actions.push(a_disconnect(Some(0), Some(&[strprop(16, b"bye")]))),
-                        _ => actions.push(a_disconnect(Some(0), Some(&[numprop(17, 1)]))),
+                12 => {
+                    match r.below(5) {
+                        0 | 1 => actions.push(a_disconnect(None, None)),
+                        2 => actions.push(a_disconnect(Some(4), None)),
+                        3 => actions.push(a_disconnect(Some(0), Some(&[strprop(16, b"bye")]))),
+                        _ => {
+                            if r.chance(p.invalid_props.0, p.invalid_props.1) {
+                                actions.push(a_disconnect(Some(0), Some(&[numprop(17, 1)])))
+                            } else {
+                                actions.push(a_disconnect(Some(0), Some(&[])))
+                            }
+                        }
                     };
                 }
-                _ => actions.push(a_simple(*r.pick(&[DROP, HD, POLL, DRIVE]))),
+                _ => {
+                    if r.chance(1, 2) {
+                        actions.push(a_simple(HD));
+                    } else {
+                        actions.push(a_simple(DROP));
+                        break;
+                    }
+                }
             }
         }
         if r.chance(1, 2) {
             actions.push(a_simple(DROP));
         }
     }
-    // script: mostly ok with random chunk sizes; sometimes faults
-    let faulty = r.chance(1, 3);
-    let n = r.range(0, 60);
+    let faulty = r.chance(p.fault.0, p.fault.1);
+    let n = r.range(p.script_len.0, p.script_len.1);
     let script = (0..n)
         .map(|_| {
             if faulty && r.chance(1, 10) {
-                (*r.pick(&[1u64, 2, 3, 3]), 0)
+                (*r.pick(&p.fault_kinds), 0)
             } else {
-                (0, *r.pick(&[1u64, 1, 2, 3, 5, 8, 1000, 1000, 1000]))
+                (0, *r.pick(&p.chunks))
             }
         })
         .collect();
     Case { cfg: emit_cfg(&cfg), actions, script }
 }
 
-pub fn sess_random(r: &mut Rng, count: usize) -> Vec<String> {
-    (0..count).map(|_| rand_case(r).line()).collect()
+pub fn sess_profile(r: &mut Rng, name: &str, count: usize) -> Vec<String> {
+    let p = profile(name);
+    (0..count).map(|_| gen_case(r, &p).line()).collect()
 }
